@@ -33,17 +33,17 @@ type member struct {
 }
 
 type event struct {
-	Kind  string // OA OR VA VR VE CL CR FR UP UK NT
-	ID    uint64 // operator id (OA, OR)
-	Owner int    // address id
-	RSA   int    // RSA public key id (OA)
-	Val   int    // validator pk id (VA VR VE); 99 = 48 bytes that are no BLS key
-	Ops   []uint64
-	Fee   int // address id (FR)
-	Mem   []member
-	SN    int // wanted signed nonce; -1 = the signature must not verify
+	Kind   string // OA OR VA VR VE CL CR FR UP UK NT
+	ID     uint64 // operator id (OA, OR)
+	Owner  int    // address id
+	RSA    int    // RSA public key id (OA)
+	Val    int    // validator pk id (VA VR VE); 99 = 48 bytes that are no BLS key
+	Ops    []uint64
+	Fee    int // address id (FR)
+	Mem    []member
+	SN     int // wanted signed nonce; -1 = the signature must not verify
 	SigAlt int // how a non-verifying signature is realised: 0 garbage bytes, 1 other validator key, 2 other owner in the text
-	Len   int // wanted len(shares); -1 = exact
+	Len    int // wanted len(shares); -1 = exact
 	// facts recomputed from the real bytes
 	signedNonce int
 	sharesLen   int
@@ -77,7 +77,7 @@ func decryptFacts(blob, listedPK []byte) (bool, bool) {
 	return decOk, kmOk
 }
 
-func topicU64(v uint64) ethcommon.Hash         { return ethcommon.BigToHash(new(big.Int).SetUint64(v)) }
+func topicU64(v uint64) ethcommon.Hash             { return ethcommon.BigToHash(new(big.Int).SetUint64(v)) }
 func topicAddr(a ethcommon.Address) ethcommon.Hash { return ethcommon.BytesToHash(a.Bytes()) }
 
 var zeroCluster = contract.ISSVNetworkCoreCluster{Balance: big.NewInt(0), Active: true}
